@@ -118,7 +118,7 @@ def free_udp_port(family=socket.AF_INET):
 
 class Server:
     def __init__(self, binary, directory, *, single=False, read_only=False, overwrite=False, keep=False, send_dir=None, recv_dir=None,
-                 dup=None, ip="127.0.0.1", logdir=None, strace=None, extra=(), tag="srv", shuffle=None, d_last=False):
+                 dup=None, ip="127.0.0.1", logdir=None, strace=None, extra=(), tag="srv", shuffle=None, d_last=False, cwd=None):
         self.binary, self.ip = binary, ip
         self.family = socket.AF_INET6 if ":" in ip else socket.AF_INET
         self.args = ["-i", ip, "-d", directory]
@@ -157,6 +157,7 @@ class Server:
             shuffle.shuffle(groups)
             self.args = [a for g in groups for a in g]
         self.single = single
+        self.cwd = cwd
         self.logdir = logdir or directory
         self.tag = tag
         self.strace = strace
@@ -178,7 +179,7 @@ class Server:
                        "trace=open,openat,creat,unlink,unlinkat,rename,renameat,renameat2,mkdir,mkdirat,truncate,ftruncate,link,linkat,symlink,symlinkat,rmdir"] + cmd
             self.logf = open(self.log_path, "wb")
             # own process group: under strace the server is a grandchild, stop() must take it down too
-            self.proc = subprocess.Popen(cmd, stdout=self.logf, stderr=subprocess.STDOUT, cwd=self.logdir, start_new_session=True)
+            self.proc = subprocess.Popen(cmd, stdout=self.logf, stderr=subprocess.STDOUT, cwd=self.cwd or self.logdir, start_new_session=True)
             if not wait:
                 return self
             if self.wait_ready():
@@ -245,7 +246,7 @@ class Server:
                 pass
 
     def __enter__(self):
-        return self.start()
+        return self if self.proc is not None else self.start()
 
     def __exit__(self, *a):
         self.stop()
